@@ -690,6 +690,11 @@ class Interp:
         if m:
             p = fr.item.path + f"::promoted[{m.group(1)}]"
             c = [it for it in P.by_path.get(p, []) if it.kind == "promoted"]
+            if len(c) > 1:
+                # macro-generated impls share one printed path: the promoteds of a body follow it in the dump
+                after = [it for it in c if it.lines[0] > fr.item.lines[0]]
+                if after:
+                    c = [min(after, key=lambda it: it.lines[0])]
             if c:
                 return c[0]
             raise Untranslatable("promoted not found: " + p)
@@ -1004,7 +1009,16 @@ class Interp:
                 raise Untranslatable("call to foreign function " + func)
             mod = base.rsplit("::", 1)[0]
             rx = re.compile("^" + re.escape(mod) + r"::<impl at [^>]*>::" + re.escape(name) + "$")
+            c0 = cands
             cands = [it for it in cands if rx.match(it.path)]
+            if not cands and not m:
+                # nested items (fn inside a method): the `<impl at ..>` segment stands for the type segment
+                f2 = re.sub(r"::<[^:]*>$", "", func)
+                for it in c0:
+                    pat = "^" + re.sub(r"<impl at [^>]*>", "@@", it.path)
+                    pat = re.escape(pat[1:]).replace("@@", r"[A-Za-z_0-9]+") + "$"
+                    if re.match(pat, f2):
+                        cands.append(it)
         want = [mp.strip_lifetimes(t) if t else t for t in arg_tys]
         c2 = [it for it in cands if [t.s for _, t in it.params] == want]
         if len(c2) == 1:
@@ -1251,6 +1265,26 @@ def h_cond_select_int(ip, fr, func, args, tys, dty, m):
     if isinstance(c, int):
         return b if c else a
     return S(ip.ctx.define(f"(ite (= {c.t} 0) {ip.term(a)} {ip.term(b)})"), m.group(1))
+
+
+@_h(r"^<std::ops::Range<(usize|u32|u64|i32)> as std::iter::IntoIterator>::into_iter$")
+def h_range_into_iter(ip, fr, func, args, tys, dty, m):
+    return args[0]
+
+
+@_h(r"^<std::ops::Range<(usize|u32|u64|i32)> as std::iter::Iterator>::next$")
+def h_range_next(ip, fr, func, args, tys, dty, m):
+    r = args[0]
+    if not isinstance(r, Ref):
+        raise Untranslatable("Range::next on non-ref")
+    rng = ip.read_path(r.cell, r.path)
+    a, b = ip.force(rng.f[0]), ip.force(rng.f[1])
+    if not (isinstance(a, int) and isinstance(b, int)):
+        raise Untranslatable("loop over a symbolic range")
+    if a < b:
+        rng.f[0] = a + 1
+        return Agg({0: a}, "Option", variant="Some")
+    return Agg({}, "Option", variant="None")
 
 
 # --------------------------------------------------------------------------------------------
